@@ -53,15 +53,11 @@ MUTANTS = [
             return hash(self.magnitude)
         self_base = self.to_base_units()
 """, expect="PlainQuantity.__hash__|"),
- dict(id="C05-eq-dimerror-true", property="C05", file=PQ, old="""        except DimensionalityError:
-            return bool_result(False)
-
-    @check_implemented
-    def __ne__""", new="""        except DimensionalityError:
-            return bool_result(True)
-
-    @check_implemented
-    def __ne__""", expect="different-dimension-returns-False"),
+ dict(id="C05-eq-dimerror-true", property="C05", file=PQ, old="""            if self.dimensionality != other.dimensionality:
+                return bool_result(False)
+            # Same dimensionality but no direct""", new="""            if self.dimensionality != other.dimensionality:
+                return bool_result(True)
+            # Same dimensionality but no direct""", expect="different-dimension-returns-False"),
  dict(id="C05-le-uses-lt", property="C05", file=PQ, old="    __le__ = lambda self, other: self.compare(other, op=operator.le)", new="    __le__ = lambda self, other: self.compare(other, op=operator.lt)", expect="PlainQuantity.__le__"),
  dict(id="C05-eq-converts-wrong-target", property="C05", file=PQ, old="""                self._convert_magnitude_not_inplace(other._units),
                 other._magnitude,
